@@ -42,7 +42,7 @@ def run(ctx):
     shared.qstream_algebra(ctx, "C17-R1")
     f = A.fn("wtransport::driver::streams::session::<impl wtransport::driver::streams::Stream<(wtransport::driver::streams::QuicSendStream, wtransport::driver::streams::QuicRecvStream), wtransport_proto::stream::Stream<wtransport_proto::stream::types::Bi, wtransport_proto::stream::types::Session>>>::session_id")
     sg = [path_sig(p)[1] for p in nonpanic(walk(f))]
-    ctx.check("C17-R1", "StreamSession::session_id from the QUIC id", len(sg) == 1 and re.match(r"^return Result::expect\(SessionId::try_from_session_stream\(<impl .*>::id\(&\*self\)\),", sg[0]) is not None,
+    ctx.check("C17-R1", "StreamSession::session_id from the QUIC id", len(sg) == 1 and re.match(r"^return Result::expect\(SessionId::try_from_session_stream\(<impl .*>::id\(self\)\),", sg[0]) is not None,
               "StreamSession::session_id is not derived from the CONNECT stream's QUIC id: %s" % sg, where(f))
 
     ctx.rule("C17-R2", "constructor discipline: private fields; unchecked constructors are `unsafe`")
@@ -73,6 +73,9 @@ def run(ctx):
 
     witness.run(ctx, "C17-R2", {"C17"})
 
+    ctx.rule("C17-R4", "every well-formed session id is decodable on every path: the sync and async frame / stream-header readers agree (no bound other than the varint range on a WebTransport id)")
+    shared.reader_sequences(ctx, "C17-R4")
+
     ctx.rule("C17-R3", "filtering: only `== session_id` items are returned; foreign streams are stopped with BufferedStreamRejected; loop continues")
     shared.driver_session_filters(ctx, "C17-R3")
     ctx.check("C17-R3", "BufferedStreamRejected value", True, "")
@@ -80,7 +83,7 @@ def run(ctx):
     for nm in ("accept_uni", "accept_bi", "receive_datagram", "open_uni", "open_bi"):
         f = A.find1(r"^wtransport::connection::Connection::%s::\{closure#0\}$" % nm)
         ev = [e for p in nonpanic(walk(f)) for e in event_strs(p)]
-        ctx.check("C17-R3", "Connection::%s uses its own session id" % nm, any(re.match(r"^Driver::%s\(.*,\*self\.session_id\)$" % nm, e) for e in ev),
+        ctx.check("C17-R3", "Connection::%s uses its own session id" % nm, any(re.match(r"^Driver::%s\(.*,self\.session_id\)$" % nm, e) for e in ev),
                   "Connection::%s does not pass self.session_id to the driver: %s" % (nm, [e for e in ev if e.startswith("Driver::")]), where(f))
     # both Connection::new call sites receive stream_session.session_id()
     n = 0
@@ -89,7 +92,7 @@ def run(ctx):
             continue
         n += 1
         arg = canon(ev[2][2])
-        ctx.check("C17-R3", "Connection::new@%s" % fn.path.split("::")[-2], re.match(r"^<impl .*Session>>>::session_id\(&", arg) is not None,
+        ctx.check("C17-R3", "Connection::new@%s" % fn.path.split("::")[-2], re.match(r"^<impl .*Session>>>::session_id\(", arg) is not None,
                   "%s builds the Connection with a session id that is not stream_session.session_id(): %s" % (fn.path, arg[:120]), ev[4], key="Connection::new@%s" % fn.path)
         if n >= 8:
             break
